@@ -23,6 +23,8 @@ cp /verif/evidence/$PROP.json /tmp/seed_evidence_keep.json 2>/dev/null
 (cd /verif && bin/check $PROP --tier quick > /tmp/seed_check.log 2>&1; echo $? > /tmp/seed_check.rc)
 git -C /repo checkout -- .
 cp /tmp/seed_evidence_keep.json /verif/evidence/$PROP.json 2>/dev/null; rm -f /tmp/seed_evidence_keep.json
+# regenerate the translated Coq files for the restored tree
+(cd /verif && python3 -c "import sys; sys.path.insert(0,'translators'); sys.path.insert(0,'bin'); import autotraits, verifyand, rtstructs, bindgentables; [m.generate() for m in (autotraits, verifyand, rtstructs, bindgentables)]" >/dev/null 2>&1)
 head -5 /tmp/seed_check.log; echo "check rc=$(cat /tmp/seed_check.rc)"
 python3 - "$OUT" "$ID" "$PROP" "$SUITE" <<'PY'
 import json,sys,os,glob
